@@ -5,6 +5,16 @@ open Rt
 let rec int_of_nat = function O -> 0 | S n -> 1 + int_of_nat n
 
 let pfx (p : prefix) : String.t = Printf.sprintf "%d/%s" (int_of_nat p.pf_len) (hex_of_bytes p.pf_addr)
+(* an FSM state as its code and the name the generated typeenum! table (Gen/EnumTables.v: State) gives it *)
+let state_s (n : n) : String.t =
+  let names = te_bgp_fsm_state_machine_State_names in
+  let nm = match of_int te_bgp_fsm_state_machine_State n with
+    | Named i -> str_of_coq (List.nth names (int_of_n i))
+    | Ranged (i, k) -> Printf.sprintf "%s(%d)" (str_of_coq (List.nth names (int_of_n i))) (int_of_n k)
+    | Catch k -> Printf.sprintf "Unimplemented(%d)" (int_of_n k)
+    | Reject -> "REJECT" in
+  Printf.sprintf "%d/%s" (int_of_n n) nm
+
 let peer (p : peer) : String.t = Printf.sprintf "%s/%s/%d" (hex_of_bytes p.pe_bgp_id) (hex_of_bytes p.pe_addr) (int_of_n p.pe_asn)
 let b x = if x then 1 else 0
 
@@ -33,8 +43,8 @@ let mp_case (bs : n list) : String.t =
   | Ok l ->
     Printf.sprintf " msgs=[%s]" (String.concat "," (List.map (function
         | MpState (as4, pa, la, ifc, afi, a, bb, o, nw) ->
-          Printf.sprintf "S%d:%d:%d:%d:%d:%s:%s:%d:%d" (b as4) (int_of_n pa) (int_of_n la) (int_of_n ifc) (int_of_n afi)
-            (hex_of_bytes a) (hex_of_bytes bb) (int_of_n o) (int_of_n nw)
+          Printf.sprintf "S%d:%d:%d:%d:%d:%s:%s:%s:%s" (b as4) (int_of_n pa) (int_of_n la) (int_of_n ifc) (int_of_n afi)
+            (hex_of_bytes a) (hex_of_bytes bb) (state_s o) (state_s nw)
         | MpMsg (as4, pa, la, ifc, afi, a, bb, m) ->
           Printf.sprintf "M%d:%d:%d:%d:%d:%s:%s:%s" (b as4) (int_of_n pa) (int_of_n la) (int_of_n ifc) (int_of_n afi)
             (hex_of_bytes a) (hex_of_bytes bb) (hex_of_bytes m)) l))
